@@ -341,6 +341,9 @@ def main(argv):
 
 
 def run(ctx, a):
+    import common, glob
+    for old in glob.glob(os.path.join(VERIF, 'replays', ctx.prop + '-*.json')) if not a.replay else []:
+        os.unlink(old)      # replay files always describe the latest run
     prepare(ctx)
     grep_gate(ctx)
     compile_props(ctx)
@@ -354,7 +357,18 @@ def run(ctx, a):
     if ctx.go_build == 'ok' and os.path.exists(os.path.join(COQ, 'run', 'Check.vo')):
         if a.replay:
             return checks.replay(ctx, a.replay)
-        fn(ctx)
+        try:
+            fn(ctx)
+        except common.ImplCrash as ex:
+            ctx.violations.append(('monitor', 'the implementation crashed (Go panic) instead of answering: %s' % (ex.stderr.strip().splitlines() or ['?'])[0][:200],
+                                   {'kind': 'rpc_request', 'request': ex.req, 'file_contents': ex.file_bytes, 'stderr': ex.stderr}))
+        except Exception:
+            # the correspondence run itself fell over: on the unchanged tree this never happens, so it is
+            # reported as a broken correspondence (not silently as a crash of the checker)
+            import traceback
+            tb = traceback.format_exc()
+            ctx.violations.append(('broken', 'correspondence run for %s did not complete: %s' % (ctx.prop, tb.strip().splitlines()[-1][:200]),
+                                   {'correspondence': 'harness run', 'traceback': tb}))
     else:
         ctx.violations.append(('broken', 'cannot run correspondence: build failed', {}))
     return finish(ctx)
